@@ -157,7 +157,7 @@ Proof. induction a as [|x a IH]; intros; simpl; [reflexivity|rewrite IH; reflexi
 Lemma wf_task_event_name_is_task_event : forall g w t route st,
   starts_with "task_" (wf_task_event_name g w t route st) = true.
 Proof.
-  intros. unfold wf_task_event_name, starts_with, TASK_EVENT_PREFIX, EV_TASK_REMEDIATED.
+  intros. unfold wf_task_event_name, task_event_name_of, starts_with, TASK_EVENT_PREFIX, EV_TASK_REMEDIATED.
   change "task_remediated" with ("task_" ++ "remediated")%string.
   repeat match goal with |- context [if ?b then _ else _] => destruct b end;
     repeat rewrite append_assoc_l; apply prefix_append.
